@@ -17,13 +17,14 @@ var c10Specs = []famSpec{
 	{Family: "stroke-rand", Pool: 200000, PoolQ: 5000},
 	{Family: "stroke-degenerate", Pool: 100000, PoolQ: 2500},
 	{Family: "stroke-point", Pool: 20000, PoolQ: 1000},
+	{Family: "stroke-loop", FreshQ: 1500, FreshT: 50000},
 	{Family: "stroke-generic", FreshQ: 3000, FreshT: 150000},
 }
 
 func init() {
 	register(&run.Prop{
 		ID: "C10",
-		Rule: "case = open polyline(s) (1, 2 or many points; stroke-degenerate plants duplicate points, collinear runs, horizontal/vertical runs) + delta in [0.5, 3x size] + end type (Butt, Square, Round, Joined) + join type (4) + miter limit + arc tolerance. " +
+		Rule: "case = open polyline(s) (1, 2 or many points; stroke-degenerate plants duplicate points, collinear runs, horizontal/vertical runs; stroke-loop: star-shaped polylines that return to their first point) + delta in [0.5, 3x size] + end type (Butt, Square, Round, Joined) + join type (4) + miter limit + arc tolerance. " +
 			"Checked, sub-check by sub-check so that the one known finding does not blind the rest: (a) result canonical (>=3 vertices, no repeated vertices, winding in {0,1} away from result edges); (b) every result vertex within k*delta+tol of the polyline; " +
 			"(c) points delta-tol along both normals of interior segments inside; (d) the same for the first/last segment and cap extents (Butt stops within tol of the end point, Square/Round reach delta-tol beyond it); (e) Joined: closing segment stroked too; (f) single point: square/circle of radius delta. " +
 			"Non-trivial = non-empty result and >= 6 membership comparisons; distinct by input digest.",
@@ -80,6 +81,22 @@ func strokeInput(id run.CaseID) strokeCase {
 			}
 		}
 		sc.Lines = Paths{p}
+	case "stroke-loop":
+		// a polyline that returns to its first point (a loop written down as an open path): star-shaped, long segments
+		// relative to delta, so that it approaches itself only at the common end point
+		n := 3 + r.Intn(6)
+		p := gen.StarPoly(r, r.Range(-R, R), r.Range(-R, R), float64(R)*0.5, float64(R), n, r.Bool())
+		p = append(p, p[0])
+		if r.Chance(0.2) { // and once more round part of the loop
+			p = append(p, p[1])
+		}
+		sc.Lines = Paths{p}
+		sc.Delta = math.Max(1, gen.PickOf(r, 1, 1.5, 2.5, 6, float64(R)*0.005, float64(R)*0.03))
+		sc.Join = r.Intn(4)
+		sc.End = 1 + r.Intn(4)
+		sc.Miter = gen.PickOf(r, 1.0, 2, 5)
+		sc.ArcTol = gen.PickOf(r, 0, 0, 0.25, sc.Delta/2)
+		return sc
 	case "stroke-generic":
 		// x-monotone polyline with long segments relative to delta: never approaches itself
 		n := 2 + r.Intn(6)
